@@ -2,7 +2,7 @@
    Theorems about the operand-resolution functions of the visitor model (Lang/Unroll.v), which is
    tied to /repo by the correspondence run of ./check C02.  Stated for all sizes and bounds. *)
 From Coq Require Import ZArith List Bool String.
-From Verif Require Import BGate PyVal Ast State Unroll ResolveProofs.
+From Verif Require Import BGate PyVal Ast State Unroll ResolveProofs Depth DepthModel FixProofs LoopProofs BroadcastProofs.
 Import ListNotations.
 Open Scope Z_scope.
 
@@ -78,3 +78,49 @@ Theorem C02_every_resolved_bit_lies_inside_a_register cr bits size_map is_q s ou
   Forall (fun b => exists n, sget (fst b) size_map = Some n /\ 0 <= snd b < n) out.
 Proof. exact (get_op_bits_inside cr bits size_map is_q s out s'). Qed.
 Print Assumptions C02_every_resolved_bit_lies_inside_a_register.
+
+(* WHOLE PROGRAMS (Lang/BroadcastProofs.v).  `pexpand env0 p = Some (q, evs)` is a computable judgement on programs whose top
+   level holds includes, register declarations, well-formed flat operations (Props/C03.v), loops over flat operations indexed
+   by the loop variable (Props/C08.v) and operations on WHOLE REGISTERS: a single-qubit library gate `g(params) r;`,
+   `reset r;`, `barrier r, s[1], ...;` and `c = measure r;` with registers of equal size.  q replaces each of them by one
+   operation per bit, in index order (measurements pair bit i of the qubit register with bit i of the classical register);
+   evs lists the events of the operations, a barrier on several qubits being ONE event that synchronises them.
+   For every such program: unroll() emits exactly q -- "an operation on a register acts on each of its bits, in order, and
+   on nothing else" --, q is a well-formed flat program, the counts are its register sizes and the depth counters are the
+   recurrence over evs. *)
+Theorem C02_whole_register_operands_unroll_bit_by_bit fuel p q evs :
+  pexpand env0 p = Some (q, evs) -> (ldepth p + 1 < fuel)%nat ->
+  exists o, run_visit false false [] fuel p = Ok o /\ o_stmts o = q /\ wf_flat env0 q = true /\
+            num_qubits (o_state o) = total_qubits q /\ num_clbits (o_state o) = total_clbits q /\
+            forall r, dof (o_state o) r = depth_after rsrc_eqb evs r.
+Proof. exact (programs_unroll_to_their_expansion fuel p q evs). Qed.
+Print Assumptions C02_whole_register_operands_unroll_bit_by_bit.
+
+(* the bits an operand names: a whole register names all its bits in index order, an indexed operand the one bit *)
+Theorem C02_operand_resolves_to_its_bits call_rec env s (is_q : bool) q bits :
+  Regs env s -> opnd_bits (if is_q then e_q env else e_c env) q = Some bits ->
+  resolve_one call_rec q (if is_q then qreg_sizes s else creg_sizes s) is_q s = Ok (bits, s).
+Proof. exact (resolve_opnd call_rec env s is_q q bits). Qed.
+Print Assumptions C02_operand_resolves_to_its_bits.
+
+Example C02_whole_register_example :
+  let qi := QIdx "q" [IdxList [IExpr (EId "i")]] in
+  let q k := QIdx "q" [IdxList [IExpr (ELit (VInt k))]] in
+  let c k := QIdx "c" [IdxList [IExpr (ELit (VInt k))]] in
+  let decls := [SInclude "stdgates.inc"; SQubitDecl "q" (Some (ELit (VInt 3))); SClassicalDecl (TBit (Some (ELit (VInt 3)))) "c" None] in
+  let p := decls ++ [SGate [] "h" [] [QId "q"];
+                     SFor (TInt None) "i" (FRange (Some (ELit (VInt 0))) (Some (ELit (VInt 1))) None) [SGate [] "cx" [] [qi; q 2]];
+                     SBarrier [QId "q"]; SReset (QId "q"); SMeasure (QId "q") (Some (QId "c"))] in
+  pexpand env0 p =
+    Some (decls ++ [SGate [] "h" [] [q 0]; SGate [] "h" [] [q 1]; SGate [] "h" [] [q 2];
+                    SGate [] "cx" [] [q 0; q 2]; SGate [] "cx" [] [q 1; q 2];
+                    SBarrier [q 0]; SBarrier [q 1]; SBarrier [q 2]; SReset (q 0); SReset (q 1); SReset (q 2);
+                    SMeasure (q 0) (Some (c 0)); SMeasure (q 1) (Some (c 1)); SMeasure (q 2) (Some (c 2))],
+          [[Qr ("q", 0)]; [Qr ("q", 1)]; [Qr ("q", 2)]; [Qr ("q", 0); Qr ("q", 2)]; [Qr ("q", 1); Qr ("q", 2)];
+           [Qr ("q", 0); Qr ("q", 1); Qr ("q", 2)]; [Qr ("q", 0)]; [Qr ("q", 1)]; [Qr ("q", 2)];
+           [Qr ("q", 0); Br ("c", 0)]; [Qr ("q", 1); Br ("c", 1)]; [Qr ("q", 2); Br ("c", 2)]]) /\
+  match unroll_v false [] p, pexpand env0 p with Ok o, Some (e, _) => list_eqb stmt_eqb (o_stmts o) e | _, _ => false end = true /\
+  pexpand env0 (decls ++ [SGate [] "cx" [] [QId "q"]]) = None /\
+  pexpand env0 (decls ++ [SMeasure (QId "q") (Some (c 0))]) = None /\
+  pexpand env0 (decls ++ [SBarrier [QId "q"; q 1]]) = None.
+Proof. vm_compute. repeat split; reflexivity. Qed.
